@@ -146,6 +146,31 @@ def quote_python(c: str) -> bool:
     return toks == [("f(" + c + ")", "python"), ("+", "operator"), ("a", "name")]
 
 
+PYSTR = ["f(')')", "f('(')", "{'`'}", 'f("a)b", c)', "{d['k)']}", "f('[', g(']'))", "f(`a(`)", "{`k[` + 1}", "I( `a(` )", "f('{') + g('}')", 'f("it\'s)")', "f(`a)`, ')')"]
+
+
+def pystr(i: int, pos: int) -> bool:
+    """
+    pre: 0 <= i < 12 and 0 <= pos < 3
+    post: _
+    """
+    i, pos = _pick(i, 0, 11), _pick(pos, 0, 2)
+    frag = PYSTR[i]
+    parts = frag.split(" + ") if i == 9 else [frag]
+    s = ["{}", "a + {}", "{} : b"][pos].format(" + ".join(parts))
+    toks = [(t.token, t.kind.value) for t in tokenize(s)]
+    want = []
+    if pos == 1:
+        want += [("a", "name"), ("+", "operator")]
+    for k, prt in enumerate(parts):
+        if k:
+            want.append(("+", "operator"))
+        want.append((prt[1:-1] if prt.startswith("{") else prt, "python"))
+    if pos == 2:
+        want += [(":", "operator"), ("b", "name")]
+    return toks == want
+
+
 # ---- spans (CH-sym over all of Unicode)
 
 def spans(s: str) -> bool:
@@ -236,6 +261,8 @@ def explain(fname, call):
             return f"quoting: python fragment {a[0]!r} is not taken verbatim"
         if fname == "spans":
             return f"spans: tokens of {a[0]!r}: {[(t.token, t.kind.value, t.source_start, t.source_end) for t in tokenize(a[0])]}"
+        if fname == "pystr":
+            return f"quoting: python fragment {PYSTR[a[0]]!r} (strings / quoted names containing brackets) is not taken verbatim"
         if fname == "pynorm":
             return f"python-normalisation: {FRAGMENTS[a[0]][0]!r} vs {FRAGMENTS[a[0]][1][a[1]]!r}"
     except Exception as e:
